@@ -28,8 +28,8 @@ from harness import core
 LEVEL = "model_checking"
 MODES = ("condense_all", "merge_across", "matrix_merge")
 
-QUICK_CFGS = ["two", "kinds3", "pol2", "files2"]
-THOROUGH_CFGS = ["two", "kinds4", "pol3", "files3", "files4"]
+QUICK_CFGS = ["two", "kinds3", "pol2", "files2", "seq3", "seqk2", "seqf2", "set2"]
+THOROUGH_CFGS = ["two", "kinds4", "pol3", "files3", "files4", "seq4", "seqk3", "seqf3", "set3"]
 
 
 RUN_TIMEOUT_S = 60      # backstop only: a run takes milliseconds
@@ -49,14 +49,17 @@ def _concretise(case, api, rng):
     style = rng.choice(("block", "block", "flow", "mixed"))
     from harness import mdocobs as mo
     texts = [mo.stream_text(ids, case["kinds"], style, rng) for ids in case["files"]]
-    run = {"api": api, "mode": case["mode"], "hashes": case["hashes"], "arrays": case["arrays"],
+    run = {"api": api, "mode": case["mode"], "hashes": case["hashes"], "arrays": case["arrays"], "sets": case["sets"],
            "files": case["files"], "kinds": case["kinds"], "texts": texts, "stdin": 0, "implicit": False,
-           "flags": [], "lib_hashes": None, "lib_arrays": None}
+           "flags": [], "lib_hashes": None, "lib_arrays": None, "lib_sets": None}
+    is_set = any(k in ("set", "setu") for k in case["kinds"])
     explicit_h = case["hashes"] != "deep" or rng.random() < 0.3
     explicit_a = case["arrays"] != "all" or rng.random() < 0.3
+    explicit_s = case["sets"] != "unique" or rng.random() < 0.3
     if api == "lib":
         run["lib_hashes"] = case["hashes"] if explicit_h else None
         run["lib_arrays"] = case["arrays"] if explicit_a else None
+        run["lib_sets"] = case["sets"] if explicit_s else None
         return run
     flags = []
     if case["mode"] != "condense_all" or rng.random() < 0.5:       # condense_all is the default mode
@@ -65,8 +68,11 @@ def _concretise(case, api, rng):
         flags += rng.choice((["-H", case["hashes"]], ["--hashes=" + case["hashes"]]))
     if explicit_a:
         flags += rng.choice((["-A", case["arrays"]], ["--arrays=" + case["arrays"]]))
+    if explicit_s:
+        flags += rng.choice((["-E", case["sets"]], ["--sets=" + case["sets"]]))
     if rng.random() < 0.25:
-        flags += rng.choice((["-D", "yaml"], ["-D", "json"], ["--document-format=json"]))
+        # JSON has no Sets: Set documents are only forced to YAML
+        flags += rng.choice((["-D", "yaml"],) if is_set else (["-D", "yaml"], ["-D", "json"], ["--document-format=json"]))
     r = rng.random()
     nf = len(texts)
     if r < 0.2 and nf >= 2:
@@ -88,13 +94,13 @@ def _execute(run, workdir):
         with open(p, "w") as fh:
             fh.write(t)
         paths.append(p)
-    rec = {"mode": run["mode"], "hashes": run["hashes"], "arrays": run["arrays"], "files": run["files"],
+    rec = {"mode": run["mode"], "hashes": run["hashes"], "arrays": run["arrays"], "sets": run.get("sets", "unique"), "files": run["files"],
            "kinds": run["kinds"], "has_stdout": False, "stdout": [], "code": 0, "err": "", "raw": ""}
     signal.signal(signal.SIGALRM, _on_alarm)
     signal.alarm(RUN_TIMEOUT_S)
     try:
         if run["api"] == "lib":
-            code, r, err = mo.run_lib(run["mode"], run["lib_hashes"], run["lib_arrays"], paths)
+            code, r, err = mo.run_lib(run["mode"], run["lib_hashes"], run["lib_arrays"], paths, run.get("lib_sets"))
             rec["code"], rec["err"] = code, err[-300:]
         else:
             argv = list(run["flags"])
@@ -157,7 +163,7 @@ def _chunks(seq, n):
         yield seq[i:i + n]
 
 
-TLC_FIELDS = ("id", "mode", "hashes", "arrays", "files", "kinds", "events", "data", "stdout", "has_stdout")
+TLC_FIELDS = ("id", "mode", "hashes", "arrays", "sets", "files", "kinds", "events", "data", "stdout", "has_stdout")
 
 
 def _validate(ctx, recs, name):
@@ -187,8 +193,11 @@ def _signature(rec, v):
         # every observation of the run (operands at each step, outputs) is what the by-reference object
         # graph of the pinned design predicts, and not what the value semantics of the statement gives
         return "%s:documents-shared-by-reference" % mode
-    pol = "" if (rec["hashes"], rec["arrays"]) == ("deep", "all") else ":H=%s,A=%s" % (rec["hashes"], rec["arrays"])
-    return "%s:%s-%s%s" % (mode, where, why.split(":")[0], pol)
+    pol = "" if (rec["hashes"], rec["arrays"], rec["sets"]) == ("deep", "all", "unique") else \
+        ":H=%s,A=%s,E=%s" % (rec["hashes"], rec["arrays"], rec["sets"])
+    fam = next((k for k in rec["kinds"] if k != "empty"), "empty")
+    fam = {"full": "", "bare": "", "empty": ""}.get(fam, ":root-" + ("array" if fam.startswith("seq") else "set"))
+    return "%s:%s-%s%s%s" % (mode, where, why.split(":")[0], fam, pol)
 
 
 # ----------------------------------------------------------------------------- binding self-test
@@ -271,7 +280,7 @@ def _selftest(ctx, good):
 # ----------------------------------------------------------------------------- the check
 def _model_check(ctx, cfgs):
     """Run the MC configurations concurrently; return (cases, pinned result)."""
-    names = cfgs + ["pinned", "pinned_ok"]
+    names = cfgs + ["pinned", "pinned_ok", "pinned_ok_root"]
 
     def one(c):
         f = ctx.path("cases_%s.txt" % c)
@@ -296,10 +305,10 @@ def _model_check(ctx, cfgs):
         if r["violated"]:
             raise core.MachineryError("TLC: %s is violated in MC_YMultiDoc_%s (a theorem of the specification fails; log %s)"
                                       % (r["violated"], c, r["log"]))
-        if c == "pinned_ok":
+        if c.startswith("pinned_ok"):
             continue
         for case in core.read_csv_json_lines(f):
-            key = json.dumps([case["mode"], case["hashes"], case["arrays"], case["files"], case["kinds"]])
+            key = json.dumps([case["mode"], case["hashes"], case["arrays"], case["sets"], case["files"], case["kinds"]])
             if key not in seen:
                 seen.add(key)
                 case["cfg"] = c
@@ -320,7 +329,7 @@ def run(ctx):
         if len(case["files"]) >= 2:
             jobs.append((idx, case, "lib"))
         if ctx.quick:
-            cli = case["cfg"] in ("two", "files2") or rng.random() < 0.35
+            cli = case["cfg"] in ("two", "files2") or rng.random() < (0.5 if case["cfg"].startswith("se") else 0.35)
         else:
             cli = case["cfg"] in ("two", "files3", "files4") or rng.random() < 0.5
         if cli:
@@ -333,9 +342,12 @@ def run(ctx):
         for n in lens:
             files.append(list(range(k + 1, k + n + 1)))
             k += n
+        fam = rng.choice((("full", "full", "bare", "empty"), ("full", "full", "bare", "empty"),
+                          ("seq", "seq", "sequ", "empty"), ("set", "set", "setu", "empty")))
         case = {"mode": rng.choice(MODES), "hashes": rng.choice(("deep", "deep", "left", "right")),
-                "arrays": rng.choice(("all", "all", "unique", "left", "right")), "files": files,
-                "kinds": [rng.choice(("full", "full", "bare", "empty")) for _ in range(k)], "cfg": "random"}
+                "arrays": rng.choice(("all", "unique", "unique", "left", "right") if fam[0] == "seq" else ("all", "all", "unique", "left", "right")),
+                "sets": rng.choice(("unique", "unique", "left", "right")), "files": files,
+                "kinds": [rng.choice(fam) for _ in range(k)], "cfg": "random"}
         idx = len(cases)
         cases.append(case)
         jobs.append((idx, case, rng.choice(("lib", "cli"))))
@@ -370,7 +382,7 @@ def run(ctx):
                 ctx.violation(_signature(r, v),
                               "%s %s over streams %s kinds %s policy %s/%s: outputs differ from the mode's definition (%s); "
                               "observed %s, expected %s%s" % (
-                                  r["run"]["api"], r["mode"], r["files"], r["kinds"], r["hashes"], r["arrays"],
+                                  r["run"]["api"], r["mode"], r["files"], r["kinds"], r["hashes"], "%s/%s" % (r["arrays"], r["sets"]),
                                   "Merger.data " + v["data_why"] if v["data_why"] else "stdout " + v["stdout_why"],
                                   json.dumps(r["data"] if v["data_why"] else r["stdout"]), json.dumps(v["exp"]),
                                   "; RHS document already modified at event %d" % v["polluted"] if v["polluted"] else ""),
@@ -391,13 +403,13 @@ def run(ctx):
 
     def nontrivial(r):
         return any(e["kind"] in ("CondenseLhs", "CondenseRhs", "Across", "Matrix") and not e["rm"]["nul"] for e in r["events"])
-    sample = [{"id": r["id"], "api": r["run"]["api"], "mode": r["mode"], "policy": [r["hashes"], r["arrays"]],
+    sample = [{"id": r["id"], "api": r["run"]["api"], "mode": r["mode"], "policy": [r["hashes"], r["arrays"], r["sets"]],
                "streams": r["run"]["texts"], "flags": r["run"]["flags"],
                "events": ["%s(%d,%d)" % (e["kind"], e["i"] or e["f"], e["j"]) for e in r["events"]],
                "outputs": r["data"]} for r in (okrecs[len(okrecs) // 3:len(okrecs) // 3 + 1] + okrecs[-1:])]
     ctx.coverage.update({
         "evaluations": len(recs),
-        "distinct_nontrivial": len({json.dumps([r["mode"], r["hashes"], r["arrays"], r["files"], r["kinds"]]) for r in okrecs if nontrivial(r)}),
+        "distinct_nontrivial": len({json.dumps([r["mode"], r["hashes"], r["arrays"], r["sets"], r["files"], r["kinds"]]) for r in okrecs if nontrivial(r)}),
         "rule": "distinct (mode, policy, stream lengths, kind of every document) inputs emitted by TLC whose real run "
                 "performs at least one pairwise merge with a non-empty right-hand document",
         "cases_from_tlc": n_exhaustive,
@@ -408,7 +420,8 @@ def run(ctx):
         "pairwise_merge_events": sum(1 for r in okrecs for e in r["events"] if e["kind"] not in ("Load", "Output", "AcrossAppend")),
         "exhaustive": True,
         "bounds": "two streams of 1..4 documents x 3 modes (complete); all 12 hash x array policies on streams of 1..%d; "
-                  "1 and 3%s streams" % ((2, "") if ctx.quick else (3, " and 4")),
+                  "1 and 3%s streams; root-level Arrays (4 array policies, streams of 1..%d, 2 and 3 streams) and "
+                  "root-level Sets (3 set policies)" % ((2, "", 3) if ctx.quick else (3, " and 4", 4)),
         "model_drift": drift,
         "drift_samples": drift_samples,
         "rhs_modified_but_outputs_agree": polluted_harmless,
@@ -421,8 +434,9 @@ def run(ctx):
                          "ruamel.yaml safe loader / json for re-reading stdout"],
     })
     ctx.assumptions += [
-        "documents are marker documents (disjoint d<k> keys, one shared scalar, at most one single-element list) or empty; "
-        "the pairwise merge itself is property C05",
+        "documents are marker documents - Hashes (disjoint d<k> keys, one shared scalar, at most one single-element list), "
+        "root-level Arrays [0, k] / [k], root-level Sets {0, k} / {k} - or empty; one family per run (merging different "
+        "root types is a MergeException); the pairwise merge itself is property C05",
         "the command line runs in-process (patched sys.argv / stdin / stdout); files live in a scratch directory",
     ]
 
@@ -439,7 +453,7 @@ def replay(path):
     exp = rp.get("exp")
 
     def norm(d):
-        return {"nul": d["nul"], "keys": sorted(d["keys"]), "shared": d["shared"], "lst": list(d["lst"])}
+        return {"nul": d["nul"], "root": d.get("root"), "keys": sorted(d["keys"]), "shared": d["shared"], "lst": list(d["lst"])}
     print(json.dumps({"run": rp["run"], "code": rec["code"], "err": rec["err"], "stdout_text": rec["raw"],
                       "events": ["%s(%d,%d) lhs=%s rhs=%s" % (e["kind"], e["i"], e["j"], e["lm"]["lst"], e["rm"]["lst"])
                                  for e in rec["events"]],
